@@ -34,7 +34,7 @@ Notes
   index-positions build, per-N bounds).  The table shows the LATEST evaluation per (change, check); the first evaluations of
   C16-namedgroups-third-dup, C14-utf16-next-left-pos-offset2, C11-scx-common-inherited, C13-char-arm-question-mark,
   C04-optional-loop-start-anchored, C09-loop-count-leak-across-matches (harness crate did not compile: exit 2),
-  C15-backref-icase-index-positions, C18-escape-truncating-cast and C12-annexb-class-escape-dash were misses or
+  C15-backref-icase-index-positions and C18-escape-truncating-cast were misses or
   inconclusive and led to the strengthenings above.
 * C07, C08 and C19 are not claimed (MANIFEST not_applicable); their seeds are kept to document what the
   machinery does NOT see: C08 (parser pre-scan of nested brackets) and C19 (a per-bracket memo behind an atomic)
